@@ -24,18 +24,18 @@ def safe (H : Handlers) : Bool → List (Item ε) → Bool
   | _, .promptOff :: r => safe H false r
   | p, .sig s :: r => (H s).exitAlways.isNone && (!p || (H s).exitUnderPrompt.isNone) && safe H p r
 
-theorem frozen (H : Handlers) (ap : ε → ω → ω) (st : St ω) (h : st.exited.isSome = true) (items : List (Item ε)) :
-    runFrom H ap st items = st := by
+theorem frozen (H : Handlers) (ap : ε → ω → ω) (rel : ω → ω) (st : St ω) (h : st.exited.isSome = true) (items : List (Item ε)) :
+    runFrom H ap rel st items = st := by
   induction items with
   | nil => rfl
   | cons i r ih =>
     simp only [runFrom, List.foldl_cons] at ih ⊢
-    have : step H ap st i = st := by simp [step, h]
+    have : step H ap rel st i = st := by simp [step, h]
     rw [this]; exact ih
 
-theorem handle_safe (h : Handler) (st : St ω) (hA : h.exitAlways = none)
+theorem handle_safe (rel : ω → ω) (h : Handler) (st : St ω) (hA : h.exitAlways = none)
     (hP : st.prompt = false ∨ h.exitUnderPrompt = none) :
-    handle h st = (if h.setsFlag then { st with flag := true } else st) := by
+    handle rel h st = (if h.setsFlag then { st with flag := true } else st) := by
   unfold handle
   rw [hA]
   cases hP with
@@ -44,38 +44,38 @@ theorem handle_safe (h : Handler) (st : St ω) (hA : h.exitAlways = none)
 
 /-- the core invariant: along a safe list the effects are applied in order, nothing exits, and the flag is the
     disjunction of the flag-storing events -/
-theorem runFrom_safe (H : Handlers) (ap : ε → ω → ω) (items : List (Item ε)) :
+theorem runFrom_safe (H : Handlers) (ap : ε → ω → ω) (rel : ω → ω) (items : List (Item ε)) :
     ∀ st : St ω, st.exited = none → safe H st.prompt items = true →
-      (runFrom H ap st items).world = applyAll ap st.world (effects items) ∧
-      (runFrom H ap st items).exited = none ∧
-      (runFrom H ap st items).flag = (st.flag || flagged H items) := by
+      (runFrom H ap rel st items).world = applyAll ap st.world (effects items) ∧
+      (runFrom H ap rel st items).exited = none ∧
+      (runFrom H ap rel st items).flag = (st.flag || flagged H items) := by
   induction items with
   | nil => intro st he _; simp [runFrom, applyAll, effects, flagged, he]
   | cons i r ih =>
     intro st he hs
-    have hstep : ∀ st' : St ω, step H ap st i = st' → runFrom H ap st (i :: r) = runFrom H ap st' r := by
+    have hstep : ∀ st' : St ω, step H ap rel st i = st' → runFrom H ap rel st (i :: r) = runFrom H ap rel st' r := by
       intro st' h; simp [runFrom, List.foldl_cons, h]
     cases i with
     | eff e =>
-      have h1 : step H ap st (.eff e) = { st with world := ap e st.world } := by simp [step, he]
+      have h1 : step H ap rel st (.eff e) = { st with world := ap e st.world } := by simp [step, he]
       rw [hstep _ h1]
       have := ih { st with world := ap e st.world } he (by simpa [safe] using hs)
       simpa [effects, applyAll, flagged] using this
     | promptOn =>
-      have h1 : step H ap st .promptOn = { st with prompt := true } := by simp [step, he]
+      have h1 : step H ap rel st .promptOn = { st with prompt := true } := by simp [step, he]
       rw [hstep _ h1]
       have := ih { st with prompt := true } he (by simpa [safe] using hs)
       simpa [effects, applyAll, flagged] using this
     | promptOff =>
-      have h1 : step H ap st .promptOff = { st with prompt := false } := by simp [step, he]
+      have h1 : step H ap rel st .promptOff = { st with prompt := false } := by simp [step, he]
       rw [hstep _ h1]
       have := ih { st with prompt := false } he (by simpa [safe] using hs)
       simpa [effects, applyAll, flagged] using this
     | sig s =>
       simp only [safe, Bool.and_eq_true, Option.isNone_iff_eq_none, Bool.or_eq_true, Bool.not_eq_true'] at hs
       obtain ⟨⟨hA, hP⟩, hr⟩ := hs
-      have h1 : step H ap st (.sig s) = (if (H s).setsFlag then { st with flag := true } else st) := by
-        simp [step, he, handle_safe (H s) st hA hP]
+      have h1 : step H ap rel st (.sig s) = (if (H s).setsFlag then { st with flag := true } else st) := by
+        simp [step, he, handle_safe rel (H s) st hA hP]
       rw [hstep _ h1]
       cases hf : (H s).setsFlag with
       | true =>
@@ -133,9 +133,9 @@ theorem applyAll_append (ap : ε → ω → ω) (w : ω) (a b : List ε) :
   simp [applyAll, List.foldl_append]
 
 /-- after the prompt: the rest of the run has no prompt step, so it is safe -/
-theorem after_prompt (H : Handlers) (hH : NoExitAlways H) (ap : ε → ω → ω) (post : List ε) (items : List (Item ε))
+theorem after_prompt (H : Handlers) (hH : NoExitAlways H) (ap : ε → ω → ω) (rel : ω → ω) (post : List ε) (items : List (Item ε))
     (st : St ω) (he : st.exited = none) (hp : st.prompt = false) (herase : erase items = post.map .eff) :
-    (runFrom H ap st items).world = applyAll ap st.world post ∧ (runFrom H ap st items).exited = none := by
+    (runFrom H ap rel st items).world = applyAll ap st.world post ∧ (runFrom H ap rel st items).exited = none := by
   have hnp : ∀ i ∈ items, isPrompt i = false := by
     intro i hi
     cases i with
@@ -147,47 +147,139 @@ theorem after_prompt (H : Handlers) (hH : NoExitAlways H) (ap : ε → ω → ω
     | promptOff =>
       have : Item.promptOff ∈ erase items := by simp [erase, isSig, hi]
       rw [herase] at this; simp at this
-  have h := runFrom_safe H ap items st he (by rw [hp]; exact safe_noPrompt H hH items hnp)
+  have h := runFrom_safe H ap rel items st he (by rw [hp]; exact safe_noPrompt H hH items hnp)
   refine ⟨?_, h.2.1⟩
   rw [h.1, ← effects_erase, herase, effects_map_eff]
 
 /-- inside the prompt -/
-theorem in_prompt (H : Handlers) (hH : NoExitAlways H) (ap : ε → ω → ω) (post : List ε) (items : List (Item ε)) :
+theorem in_prompt (H : Handlers) (hH : NoExitAlways H) (ap : ε → ω → ω) (rel : ω → ω) (post : List ε) (items : List (Item ε)) :
     ∀ st : St ω, st.exited = none → st.prompt = true → erase items = .promptOff :: post.map .eff →
-      ((runFrom H ap st items).exited = none → (runFrom H ap st items).world = applyAll ap st.world post) ∧
-      (∀ c, (runFrom H ap st items).exited = some c →
-        (runFrom H ap st items).world = st.world ∧ ∃ s, (H s).exitUnderPrompt = some c) := by
+      ((runFrom H ap rel st items).exited = none → (runFrom H ap rel st items).world = applyAll ap st.world post) ∧
+      (∀ c, (runFrom H ap rel st items).exited = some c →
+        ∃ s, (H s).exitUnderPrompt = some c ∧ (runFrom H ap rel st items).world = exitWorld rel (H s) st.world) := by
   induction items with
   | nil => intro st _ _ h; simp [erase] at h
   | cons i r ih =>
     intro st he hp herase
-    have hstep : ∀ st' : St ω, step H ap st i = st' → runFrom H ap st (i :: r) = runFrom H ap st' r := by
+    have hstep : ∀ st' : St ω, step H ap rel st i = st' → runFrom H ap rel st (i :: r) = runFrom H ap rel st' r := by
       intro st' h; simp [runFrom, List.foldl_cons, h]
     cases i with
     | eff e => simp [erase, isSig] at herase
     | promptOn => simp [erase, isSig] at herase
     | promptOff =>
       have ht : erase r = post.map .eff := by simpa [erase, isSig] using herase
-      have h1 : step H ap st .promptOff = { st with prompt := false } := by simp [step, he]
+      have h1 : step H ap rel st .promptOff = { st with prompt := false } := by simp [step, he]
       rw [hstep _ h1]
-      have := after_prompt H hH ap post r { st with prompt := false } he rfl ht
+      have := after_prompt H hH ap rel post r { st with prompt := false } he rfl ht
       refine ⟨fun _ => this.1, fun c hc => ?_⟩
       rw [this.2] at hc; cases hc
     | sig s =>
       have ht : erase r = .promptOff :: post.map .eff := by simpa [erase, isSig] using herase
       cases hu : (H s).exitUnderPrompt with
       | some c0 =>
-        have h1 : step H ap st (.sig s) = { st with exited := some c0 } := by
+        have h1 : step H ap rel st (.sig s) =
+            { st with exited := some c0, world := exitWorld rel (H s) st.world } := by
           simp [step, he, handle, hH s, hp, hu]
-        rw [hstep _ h1, frozen H ap _ (by simp) r]
-        refine ⟨fun h => by simp at h, fun c hc => ⟨rfl, s, ?_⟩⟩
+        rw [hstep _ h1, frozen H ap rel _ (by simp) r]
+        refine ⟨fun h => by simp at h, fun c hc => ⟨s, ?_, rfl⟩⟩
         simp at hc; rw [hu, hc]
       | none =>
-        have h1 : step H ap st (.sig s) = (if (H s).setsFlag then { st with flag := true } else st) := by
-          simp [step, he, handle_safe (H s) st (hH s) (Or.inr hu)]
+        have h1 : step H ap rel st (.sig s) = (if (H s).setsFlag then { st with flag := true } else st) := by
+          simp [step, he, handle_safe rel (H s) st (hH s) (Or.inr hu)]
         rw [hstep _ h1]
         cases hf : (H s).setsFlag with
         | true => simpa [hf] using ih { st with flag := true } he hp ht
         | false => simpa [hf] using ih st he hp ht
+
+theorem erase_map_eff (l : List ε) : erase (l.map Item.eff) = l.map Item.eff := by
+  induction l with
+  | nil => rfl
+  | cons e r ih =>
+    have : erase (Item.eff e :: r.map Item.eff) = Item.eff e :: erase (r.map Item.eff) := by
+      simp [erase, isSig]
+    rw [List.map_cons, this, ih]
+
+theorem erase_append (a b : List (Item ε)) : erase (a ++ b) = erase a ++ erase b := by
+  simp [erase, List.filter_append]
+
+theorem erase_withPrompt (pre post : List ε) : erase (withPrompt pre post) = withPrompt pre post := by
+  unfold withPrompt
+  rw [erase_append, erase_append, erase_map_eff, erase_map_eff]
+  simp [erase, isSig]
+
+theorem effects_append (a b : List (Item ε)) : effects (a ++ b) = effects a ++ effects b := by
+  induction a with
+  | nil => rfl
+  | cons i r ih => cases i <;> simp [effects, ih]
+
+theorem effects_withPrompt (pre post : List ε) : effects (withPrompt pre post) = pre ++ post := by
+  simp [withPrompt, effects_append, effects_map_eff, effects]
+
+/-- a list without signal events is safe -/
+theorem safe_noSig (H : Handlers) (items : List (Item ε)) (h : ∀ i ∈ items, isSig i = false) :
+    ∀ p, safe H p items = true := by
+  induction items with
+  | nil => intro p; rfl
+  | cons i r ih =>
+    intro p
+    have hr := ih (fun j hj => h j (List.mem_cons_of_mem _ hj))
+    cases i with
+    | eff e => simpa [safe] using hr p
+    | promptOn => simpa [safe] using hr true
+    | promptOff => simpa [safe] using hr false
+    | sig s => have := h _ List.mem_cons_self; simp [isSig] at this
+
+/-- if every handler stores the flag and none exits unconditionally, a run that did not exit inside a handler has the
+    flag set iff a signal event occurred -/
+theorem runFrom_flag (H : Handlers) (hH : NoExitAlways H) (hF : ∀ s, (H s).setsFlag = true) (ap : ε → ω → ω)
+    (rel : ω → ω) (items : List (Item ε)) :
+    ∀ st : St ω, st.exited = none → (runFrom H ap rel st items).exited = none →
+      (runFrom H ap rel st items).flag = (st.flag || items.any isSig) := by
+  induction items with
+  | nil => intro st _ _; simp [runFrom]
+  | cons i r ih =>
+    intro st he hfin
+    have hstep : ∀ st' : St ω, step H ap rel st i = st' → runFrom H ap rel st (i :: r) = runFrom H ap rel st' r := by
+      intro st' h; simp [runFrom, List.foldl_cons, h]
+    cases i with
+    | eff e =>
+      have h1 : step H ap rel st (.eff e) = { st with world := ap e st.world } := by simp [step, he]
+      rw [hstep _ h1] at hfin ⊢
+      simpa [isSig] using ih { st with world := ap e st.world } he hfin
+    | promptOn =>
+      have h1 : step H ap rel st .promptOn = { st with prompt := true } := by simp [step, he]
+      rw [hstep _ h1] at hfin ⊢
+      simpa [isSig] using ih { st with prompt := true } he hfin
+    | promptOff =>
+      have h1 : step H ap rel st .promptOff = { st with prompt := false } := by simp [step, he]
+      rw [hstep _ h1] at hfin ⊢
+      simpa [isSig] using ih { st with prompt := false } he hfin
+    | sig s =>
+      cases hx : (if st.prompt then (H s).exitUnderPrompt else none) with
+      | some c0 =>
+        have h1 : step H ap rel st (.sig s) = { st with exited := some c0, world := exitWorld rel (H s) st.world } := by
+          simp [step, he, handle, hH s, hx]
+        rw [hstep _ h1, frozen H ap rel _ (by simp) r] at hfin
+        simp at hfin
+      | none =>
+        have h1 : step H ap rel st (.sig s) = { st with flag := true } := by
+          simp [step, he, handle, hH s, hx, hF s]
+        rw [hstep _ h1] at hfin ⊢
+        simpa [isSig] using ih { st with flag := true } he hfin
+
+theorem pre_keeps_user (pre : List Eff) (hpre : ∀ e ∈ pre, e = .lockCreate ∨ e = .other) (w : World) :
+    (applyAll apEff w pre).user = w.user ∧ (applyAll apEff w pre).history = w.history := by
+  induction pre generalizing w with
+  | nil => exact ⟨rfl, rfl⟩
+  | cons e r ih =>
+    simp only [applyAll, List.foldl_cons]
+    have h1 := ih (fun e' he' => hpre e' (List.mem_cons_of_mem _ he')) (apEff e w)
+    simp only [applyAll] at h1
+    rcases hpre e List.mem_cons_self with rfl | rfl <;> simpa [apEff] using h1
+
+theorem relWorld_facts (w : World) :
+    (relWorld w).lock = false ∧ (relWorld w).user = w.user ∧ (relWorld w).history = w.history := by
+  unfold relWorld
+  cases h : w.lock <;> simp [h]
 
 end Signals
